@@ -831,7 +831,8 @@ func TestProp(t *testing.T) {
 			"2-50*tol) at a random nesting level -> must not be similar. Both directions are evaluated and must agree with each other and with the constructed truth. " +
 			"Aliasing: g against a shallow copy of itself in which one point list is re-sliced to a strict prefix sharing memory (first four lists) -> false both ways. " +
 			"Non-trivial = a non-identity permutation/rotation or a negative edit. Distinct by case hash." +
-			" Round 9: rings with runs of equal consecutive vertices and spikes (P Q P), started inside the run.",
+			" Round 9: rings with runs of equal consecutive vertices and spikes (P Q P), started inside the run." +
+			" Round 10: multiplicity cases (1 in 12: two or three distinct members in drawn numbers against the same numbers, or with one copy replaced by a copy of another member).",
 		Assumptions: []string{"MultiPoint member order and ring direction are not claimed either way", "a closing vertex is a coordinate pair like any other: perturbed on its own in a quarter of the rings and displaced on its own in half of the displacements that hit it"},
 		Gen:         gen,
 		Run:         run,
